@@ -60,6 +60,27 @@ CLAIMS = {
             "C19"),
 }
 
+CLAIMS.update({
+    "C06": ("pyvc VCs of Chart._partition_lines_by_data_section (ghost section table, loop invariant) and of the real Chart.from_file body in three proof units "
+            "(sections, required-sections, routing) against callee contracts + Chart.from_filepath + rxvc header-pattern obligations + SMT lemmas over the from_file postcondition",
+            "For every well-framed file (any number of sections, distinct tags, any bodies): each section's parser receives exactly its body lines; Song/SyncTrack/Events feed metadata/tempo/global events; "
+            "every header naming a (instrument, difficulty) pair (table proved to be the 40 '<Difficulty><Instrument>' names, injective) feeds the track stored under and labelled with that pair; "
+            "a missing required section raises ValueError (two-sided). Order independence, unknown-section independence (and the warning) are lemmas over that postcondition. "
+            "LF/CRLF and BOM independence rest on the ASSUMED library contracts of str.splitlines and open(encoding='utf-8-sig') (listed in evidence.assumptions); the call sites are checked to use them.",
+            "C06"),
+    "C13": ("pyvc VCs of the real Chart.from_file routing loop (selection filter, per-section track construction via the callee's result function) + SMT lemmas over the postcondition + fxvc frames",
+            "instrument_tracks holds exactly the selected pairs present in the file (None selects all, an empty selection none), each equal to InstrumentTrack.from_chart_lines(pair, its own body, tempo map) - "
+            "the same value an unrestricted parse stores; metadata, sync track and global events do not mention the selection. Non-interference: each track is a function of its own section body and the shared tempo map only "
+            "(result-function arguments), and the frame analysis shows no other channel; a non-selected section's body is never passed to a parser.",
+            "C13"),
+    "C18": ("pyvc safety-mode VCs: every function on the parse path re-verified under WEAK preconditions (arbitrary lines, only the token bounds of the statement) with an escape obligation per exception class at every raising operation; "
+            "rendering units for every package-defined __str__/__repr__ per concrete class",
+            "For arbitrary text within the stated token bounds only ValueError, RegexNotMatchError or MissingRequiredField can escape Chart.from_file/from_filepath (every subscript, dict lookup, int(), division, unpacking, "
+            "Optional use, enum construction and assert on the path has a discharged no-escape obligation); str()/repr() of the chart, its tracks and every event cannot raise for any field values of the declared types "
+            "(library rendering of builtins and dataclass-generated __repr__ assumed total).",
+            "C18"),
+})
+
 NOT_YET = {}
 
 
